@@ -129,7 +129,10 @@ var (
 // gzip-compressed (allowed by the OpenType specification; the library inflates them on access).
 // "synth:gsub-long-context.ttf" is common/Roboto-BoldItalic.ttf with a GSUB made of chained
 // context lookups (format 3) whose lookahead sequences are 65 to 200 coverages long.
-var Synthetic = []string{"synth:svg-gzip.ttf", "synth:gsub-long-context.ttf"}
+// "synth:dangling-refs.ttf" is common/Roboto-BoldItalic.ttf in which the first lookup index of
+// every GSUB/GPOS feature with two or more lookups dangles (0xFFFF): a malformation the library
+// tolerates ("ignore invalid references"), so such a font is parsed, shared and shaped with.
+var Synthetic = []string{"synth:svg-gzip.ttf", "synth:gsub-long-context.ttf", "synth:dangling-refs.ttf"}
 
 var synthCache = map[string][]byte{}
 
@@ -152,11 +155,41 @@ func synth(name string) []byte {
 		if !ok {
 			panic("corpus: cannot build synth:gsub-long-context.ttf")
 		}
+	case "synth:dangling-refs.ttf":
+		out = danglingRefs(Bytes("ot:common/Roboto-BoldItalic.ttf"))
 	default:
 		panic("corpus: unknown synthetic font " + name)
 	}
 	synthCache[name] = out
 	return append([]byte(nil), out...)
+}
+
+func danglingRefs(img []byte) []byte {
+	out := append([]byte(nil), img...)
+	_, tabs := faultdisk.ParseDirectory(out)
+	patched := 0
+	for _, t := range tabs {
+		if (t.Tag != "GSUB" && t.Tag != "GPOS") || t.Offset+t.Length > len(out) || t.Length < 10 {
+			continue
+		}
+		tb := out[t.Offset : t.Offset+t.Length]
+		fl := int(binary.BigEndian.Uint16(tb[6:]))
+		if fl+2 > len(tb) {
+			continue
+		}
+		n := int(binary.BigEndian.Uint16(tb[fl:]))
+		for i := 0; i < n && fl+2+6*i+6 <= len(tb); i++ {
+			f := fl + int(binary.BigEndian.Uint16(tb[fl+2+6*i+4:]))
+			if f+6 <= len(tb) && binary.BigEndian.Uint16(tb[f+2:]) >= 2 {
+				binary.BigEndian.PutUint16(tb[f+4:], 0xFFFF)
+				patched++
+			}
+		}
+	}
+	if patched == 0 {
+		panic("corpus: cannot build synth:dangling-refs.ttf")
+	}
+	return out
 }
 
 func svgGzip(img []byte) []byte {
